@@ -105,6 +105,7 @@ def _mon(name):
         if name == "C13":
             return ms.mon_c13(sc, c, outcome)
         return []
+    m.judges_closure = name == "C05"
     return m
 
 
